@@ -386,7 +386,25 @@ def known_repartition_unmergeable_parameters(case, vio):
     return any(K.any_node(p if "class" in p else p.get("generates", p), wrapped_parameterised) for p in case.get("pieces", []))
 
 
+def known_repartition_regular_pieces(case, vio):
+    """Content::mergemany of RegularArrays (or n-d NumpyArrays) gives variable-length lists; ak.repartition merges some pieces and only
+    slices others, so a repartitioned array of regular type has pieces of types 'var * ...' and 'N * ...' and ak.type raises
+    'inconsistent types in PartitionedArray'"""
+    if case.get("part") not in ("ppartition", "partition"):
+        return False
+    text = vio.get("message", "") + str(vio.get("observed", ""))
+    if "inconsistent types in PartitionedArray" not in text:
+        return False
+
+    def regular_top(n):
+        while n["class"].startswith(("IndexedArray", "IndexedOptionArray", "ByteMaskedArray", "BitMaskedArray", "UnmaskedArray")):
+            n = n["content"]
+        return n["class"] == "RegularArray" or (n["class"] == "NumpyArray" and len(n["shape"]) > 1)
+    return any(regular_top(p if "class" in p else p.get("generates", p)) for p in case.get("pieces", []))
+
+
 KNOWN = {"repartition_unmergeable_parameters": known_repartition_unmergeable_parameters,
+         "repartition_regular_pieces": known_repartition_regular_pieces,
          "virtual_generated_longer_than_declared": known_length_longer,
          "virtual_record_ellipsis_newaxis": known_ellipsis_newaxis_through_virtual_record,
          "virtual_range_form_bitmasked": known_bitmasked_range_form,
